@@ -19,4 +19,10 @@ ProbeFaithful(p, st, results, noneCount, k) ==
       /\ (PositiveMoves(st) # {} => noneCount = 0)
       /\ (k >= 300 => PositiveMoves(st) \subseteq results)
       /\ (PositiveMoves(st) = {} => results = {})
-=============================================================================
+(* ---- polyglot key structure ---- *)
+(* The polyglot book format derives the position key by XOR-ing published 64-bit constants, one per feature.  The constants  *)
+(* of the four castling rights and of the side to move (entries 768..771 and 780 of the format's Random64 table) are part   *)
+(* of the format definition; a well-formed book found on disk was written with exactly these.                               *)
+PolyglotConst == [H1 |-> "31d71dce64b2c310", A1 |-> "f165b587df898190", H8 |-> "a57e6339dd2cf3a0", A8 |-> "1ef6e6dbb1961ec9",
+                  turn |-> "f8d626aaaf278509"]
+=========================================================================
